@@ -163,7 +163,7 @@ class C23(Check):
         try:
             with open(os.path.join(d, "q.sql"), "w", encoding="utf8", newline="") as fh:
                 fh.write(case["sql"])
-            cfgtxt = "[sqlfluff]\ndialect = %s\nrules = %s\n" % (case["dialect"], case.get("rules") or "all")
+            cfgtxt = "[sqlfluff]\ndialect = %s\nrules = %s\nencoding = utf-8\n" % (case["dialect"], case.get("rules") or "all")
             # rule options are not replicated on the CLI side: only cases with default options are compared
             if case.get("rule_options"):
                 return
